@@ -725,3 +725,4 @@ from . import interp as _interp_mod
 _lib_calc.install(_interp_mod)
 from . import lib_filter as _lib_filter   # exact summaries of filter loops / filtered comprehensions
 from . import lib_amat as _lib_amat     # abstract matrix algebra (uninterpreted ring of float matrices)
+_lib_amat.install_calc(_lib_calc)
